@@ -1,7 +1,7 @@
 (** * C01 — calling a generated trait method is calling the original function (expansion-level half) *)
 From Coq Require Import List String Ascii Bool.
 From Entrait Require Import Tok Syn Opts Split FnParams Convert Codegen Expand Proj Examples.
-From Entrait.Proofs Require Import Base Shapes NonVac PFnParams PC16 PC01.
+From Entrait.Proofs Require Import Base Shapes NonVac PFnParams PC16 PC01 Sem PSem01.
 Import ListNotations.
 Local Open Scope list_scope.
 
@@ -30,6 +30,26 @@ Theorem c01_bodies : forall ind im k o sigs fns argss,
             (map (fun '(tf, args) => (tf_attrs tf, tf_sig tf, deleg_body ind im tf args)) (combine fns argss)) = true.
 Proof. exact bodies_ok_all. Qed.
 Print Assumptions c01_bodies.
+
+(** What calling a generated method does (mini-semantics of Proofs/Sem.v: parameters bound positionally to
+    the caller's arguments; a parameter named like the callee would capture it, a duplicated name would be
+    rejected): for every function the macro analyses — standalone, module function, impl-block function —
+    evaluating the delegating body performs exactly ONE call, of the function with the source function's own
+    name ([Self::name] in impl blocks), passing the receiver first (when the function has a dependency
+    parameter and the impl is the direct one) and then the caller's arguments 0..n-1 in declared order; the
+    result is awaited iff the source function is async. Uses C16 (names distinct, callee not shadowed). *)
+Theorem c01_call_semantics : forall ind im k o s tf args,
+  fn_ok k o s tf ->
+  call_args (p_items (s_inputs (tf_sig tf))) = Ok args ->
+  ~ In "self"%string (typed_names (tf_sig tf)) ->
+  eval_fn_call (typed_names (tf_sig tf)) (deleg_body ind im tf args) =
+  Some (mkEvent
+          (match im with MImplBlock => CSelfFn (s_name s) | _ => CFn (s_name s) end)
+          ((if match ind with INone => negb (no_deps_value o) | _ => false end then [VSelf] else []) ++
+           map VArg (seq 0 (List.length (typed_names (tf_sig tf)))))
+          (s_async s)).
+Proof. exact delegating_call_semantics. Qed.
+Print Assumptions c01_call_semantics.
 
 (** The predicate the checker evaluates on the implementation's output holds of every model expansion. *)
 Theorem c01_view_sound : forall v attr i items,
